@@ -467,6 +467,9 @@ class SymEngine:
         self.markers = {}
         self.nonlinear = False
         self.realisations = 0
+        self.crosscheck_every = 0
+        self._xc_counter = 0
+        self.xc = {}
         self.decided = {}
         self.watched = set()
         self.watch_hits = []
@@ -811,6 +814,10 @@ class SymEngine:
         self.solver.add(z)
         try:
             r = self._check()
+            if r is not None and self.crosscheck_every:
+                self._xc_counter += 1
+                if self._xc_counter % self.crosscheck_every == 0:
+                    self._crosscheck(r)
             if r is None:
                 return None
             if not r:
@@ -833,6 +840,35 @@ class SymEngine:
             return self._with_model(m)
         finally:
             self.solver.pop()
+
+    def _crosscheck(self, z3_sat):
+        """re-decide the current query (path condition + formula) with cvc5 from its SMT-LIB dump"""
+        try:
+            import cvc5
+            text = "(set-logic ALL)\n" + self.solver.to_smt2()
+            slv = cvc5.Solver()
+            slv.setOption("tlimit-per", "5000")
+            parser = cvc5.InputParser(slv)
+            parser.setStringInput(cvc5.InputLanguage.SMT_LIB_2_6, text, "query")
+            sm = parser.getSymbolManager()
+            verdict = None
+            while True:
+                cmd = parser.nextCommand()
+                if cmd.isNull():
+                    break
+                out = str(cmd.invoke(slv, sm)).strip()
+                if out in ("sat", "unsat", "unknown"):
+                    verdict = out
+        except Exception as ex:  # noqa
+            self.xc["error"] = self.xc.get("error", 0) + 1
+            return
+        if verdict in (None, "unknown"):
+            self.xc["unknown"] = self.xc.get("unknown", 0) + 1
+        elif (verdict == "sat") == bool(z3_sat):
+            self.xc["agree"] = self.xc.get("agree", 0) + 1
+        else:
+            self.xc["disagree"] = self.xc.get("disagree", 0) + 1
+            self.xc.setdefault("disagreements", []).append(text[:2000])
 
     def snapshot(self):
         """concrete inputs of the current model: variable values + choices"""
